@@ -6,7 +6,7 @@ import shutil
 import sys
 import tempfile
 
-from core import Check, run_check
+from core import tool, Check, run_check
 import gen
 
 
@@ -92,44 +92,44 @@ def run_all(p, gaf_key, gfa_key, g, lines, rng_choices, tmp):
         idx = gaf + ".gvi"
         if os.path.exists(idx):
             os.remove(idx)
-        index.run(gaf, gfa)
+        tool("index", gaf_path=gaf, gfa_path=gfa)
         d = pickle.load(open(idx, "rb"))
         return sorted((k, ordinals(gaf, v)) for k, v in d.items() if k != "ref_contig")
     guard("index", do_index)
     nodes, region = rng_choices
-    guard("view-nodes", lambda: (view.run(gaf, gfa=gfa, output=out, nodes=nodes), open(out).read())[1])
-    guard("view-region", lambda: (view.run(gaf, gfa=gfa, output=out, regions=[region]), open(out).read())[1])
-    guard("view-stable", lambda: (view.run(gaf, gfa=gfa, output=out, format="stable"), open(out).read())[1])
-    guard("view-all", lambda: (view.run(gaf, output=out), open(out).read())[1])
+    guard("view-nodes", lambda: (tool("view", gaf_path=gaf, gfa=gfa, output=out, nodes=nodes), open(out).read())[1])
+    guard("view-region", lambda: (tool("view", gaf_path=gaf, gfa=gfa, output=out, regions=[region]), open(out).read())[1])
+    guard("view-stable", lambda: (tool("view", gaf_path=gaf, gfa=gfa, output=out, format="stable"), open(out).read())[1])
+    guard("view-all", lambda: (tool("view", gaf_path=gaf, output=out), open(out).read())[1])
 
     def do_sort():
         o = os.path.join(tmp, "s.gaf")
         for f in (o, o + ".gsi"):
             if os.path.exists(f):
                 os.remove(f)
-        gsort.run_sort(gfa=gfa, gaf=gaf, outgaf=o)
+        tool("sort", gfa=gfa, gaf=gaf, outgaf=o)
         d = pickle.load(open(o + ".gsi", "rb"))
         return open(o).read(), sorted((k, ordinals(o, v)) for k, v in d.items())
     guard("sort", do_sort)
-    guard("stat", lambda: (stat.run_stat(gaf, cigar_stat=True, output=out), open(out).read())[1])
+    guard("stat", lambda: (tool("stat", gaf_path=gaf, cigar_stat=True, output=out), open(out).read())[1])
 
     def do_phase():
         tsv = os.path.join(tmp, "p.tsv")
         gen.write_text(tsv, "".join("%s\tH%d\t%d\tchr1\n" % (l.split("\t")[0], 1 + i % 2, 100 + i) for i, l in enumerate(lines[::3])))
-        phase.add_phase_info(gaf, tsv, out)
+        tool("phase", gaf_file=gaf, tsv_file=tsv, output=out)
         return open(out).read()
     guard("phase", do_phase)
     if "fa" in p:
-        guard("realign", lambda: (run_realign(gaf, gfa, p["fa"], output=out, cores=1), open(out).read())[1])
+        guard("realign", lambda: (tool("realign", gaf=gaf, graph=gfa, fasta=p["fa"], output=out, cores=1), open(out).read())[1])
     path = lines[0].split("\t")[5]
-    guard("find_path", lambda: (find_path.run(gfa, path, output=out, fasta=True), open(out).read())[1])
+    guard("find_path", lambda: (tool("find_path", gfa_path=gfa, input_path=path, output=out, fasta=True), open(out).read())[1])
 
     def do_order():
         od = os.path.join(tmp, "ord")
         shutil.rmtree(od, ignore_errors=True)
         names = sorted({s["SN"] for s in g.segs if s["SR"] == 0})
         try:
-            order_gfa.run_order_gfa(gfa, od, by_chrom=True, chromosome_order=",".join(names), with_sequence=True)
+            tool("order_gfa", gfa_filename=gfa, outdir=od, by_chrom=True, chromosome_order=",".join(names), with_sequence=True)
         except SystemExit as e:
             return "exit:%s" % e.code
         return sorted((os.path.basename(f).split("-", 1)[1].rsplit(".", 1), open(f).read()) for f in glob.glob(od + "/*"))
